@@ -42,6 +42,35 @@ class Ctx:
     def violation(self, rule, key, site, what, detail=""):
         """A rule instance that fails. key = rule | function | construct (no line numbers)."""
         full = "%s|%s" % (rule, key)
+        nf = getattr(self, "normal_form_violated", None)
+
+        def _held_in(pass_keys):
+            # a pass "rescues" this instance only if it *positively evaluated the very same instance as holding*
+            # (an ok record with the same rule and key) and reports nothing at all about the same rule and construct:
+            # a pass in which the rule finds nothing to look at, fails differently, or misses its anchor rescues nothing
+            bad, good, mode = pass_keys
+            pre = "%s|%s" % (rule, key.split("|")[0])
+            if rule.endswith("early-exits") and ("guards" in mode or "unguards" in mode):
+                return False  # these passes erase exactly what the early-exit census measures
+            # the same instance, possibly reported with a finer detail suffix than the ok record carries
+            segs = key.split("|")
+            grp = "%s|%s|%s" % (rule, segs[0], segs[1]) if len(segs) >= 2 else full
+            if segs[0] == "anchor-missing" and len(segs) >= 2:
+                grp = "%s|floor|%s" % (rule, segs[1])  # a floor that is met in this pass
+            positive = any(g == grp or g.startswith(grp + "|") for g in good)
+            if not positive and (rule.endswith("early-exits") or key.split("|")[-1] == "shape"):
+                # census / whole-function shape instances: the pass must have evaluated something about this construct
+                positive = any(g == pre or g.startswith(pre + "|") for g in good)
+            if not positive:
+                return False
+            return not any(k == pre or k.startswith(pre + "|") or k.startswith(rule + "|anchor-missing") for k in bad)
+
+        if nf is not None and rule != "internal" and any(_held_in(pk) for pk in nf):
+            # the instance holds on the normal form of the code (match / if-let / `?` / extracted helper are
+            # idiom choices, see rules/sym.py CANON): not a violation
+            self.instances.append({"rule": rule, "key": key, "site": site, "ok": True, "detail": "holds on the normal form of the code (idiom differs from the one the table was written for)"})
+            self.accepted_by_normal_form = getattr(self, "accepted_by_normal_form", 0) + 1
+            return
         self.instances.append({"rule": rule, "key": key, "site": site, "ok": False, "detail": what})
         self.violations.append({"key": full, "rule": rule, "site": site, "what": what, "detail": detail})
 
@@ -58,6 +87,7 @@ class Ctx:
             self.violation(rule, "anchor-missing|%s" % what, "", "expected at least %d %s, found %d (anchor moved or rule blind)" % (floor, what, found))
             return False
         self.count("floor:" + rule + ":" + what, found)
+        self.instances.append({"rule": rule, "key": "floor|%s" % what, "site": "", "ok": True, "detail": "%d found (at least %d expected)" % (found, floor)})
         return True
 
     def note(self, s):
